@@ -17,12 +17,17 @@ LEVEL_TEXT.update({
     "C17": "Bounded model checking: STATE counters and reply LCount/LRCount compared with a census of the real structures after one arbitrary step from every state of the bounded shape.",
 })
 
+LEVEL_TEXT.update({
+    "C13": "Bounded model checking for crash freedom: every implicit Go run-time check in the code reached from a connection's input (value frames on LOCK/UNLOCK so far; see harness bounds) is an obligation; a feasible panic is replayed natively and must occur at the same source line. 17 crash sites in the value-operation code are recorded findings; a panic at any other site is a violation.",
+})
+
 LEVEL_NOTE = {
     "C01": "Trusted: the symgo executor (validated per run by native replay of sampled path witnesses), z3. Schedules: single-threaded critical sections only (no interleaving of two requests inside LockDB.Lock is explored); time values drawn from classes {0,3}/{0,4}; millisecond flags and aof-timing flags fixed in these harnesses.",
     "C02": "Trusted: symgo (validated by native replay of sampled witnesses), z3. Single-threaded critical sections; holder list shapes <=3 (inline queue only); show/update flags excluded here (C06).",
     "C03": "Trusted: symgo, z3. In-memory protocol (MemWaiterServerProtocol) only: the socket write path and text-protocol lockWaiter hand-off are outside; require-ack flag excluded (C11); no interleaving of two threads.",
     "C04": "Trusted: symgo, z3. Queues of <=2 entries (inline representation); ring/priority-ring migration beyond that is covered only by C20. Two recorded findings (known_findings.json).",
     "C17": "Trusted: symgo, z3. One key, one shard; free collectors outside; the drain phase is checked only over the single step.",
+    "C13": "Trusted: symgo, z3. Frames <= 8 bytes; paths that would allocate more than 300 distinct sizes are cut (listed as unsupported in the evidence); text handlers, CALL and the 64-byte header parser are covered by separate harnesses where registered.",
     "C14": "Trusted: symgo, z3. crypto/md5 is an uninterpreted function.",
     "C20": "Trusted: symgo. Programs longer than the bound and constructor parameters above 3 are outside the claim.",
 }
